@@ -51,7 +51,26 @@ FLOORS = {  # ~40 % of what the unchanged tree produces (quick seed 0: 1959/4732
               "integer_coordinates:vector_predict:int32": 80, "integer_coordinates:vector_predict:int64": 80, "integer_coordinates:trend_predict:int32": 125,
               "integer_coordinates:trend_predict:int64": 125, "integer_coordinates:spline_jacobian:int32": 40, "integer_coordinates:vector_jacobian:int64": 40,
               "integer_coordinates:trend_jacobian:int32": 40, "integer:squares_overflow_the_dtype": 40, "integer:powers_overflow_the_dtype": 25,
-              "history:checkerboard": 16, "history:spline": 16, "history:vector": 16, "history:trend": 16, "history:scipy_rescale_refit": 16, "history:scipy_class_state": 16, "checker:parameters_from_the_workload_record": 112, "history:checker_change=region": 10, "history:checker_change=region+w_east+w_north": 8, "eval:checkerboard_wavelengths": 64},
+              "history:checkerboard": 16, "history:spline": 16, "history:vector": 16, "history:trend": 16, "history:scipy_rescale_refit": 16, "history:scipy_class_state": 16, "checker:parameters_from_the_workload_record": 112, "history:checker_change=region": 10, "history:checker_change=region+w_east+w_north": 8, "eval:checkerboard_wavelengths": 64,
+              "spelling:amplitude:float": 24, "spelling:amplitude:int": 24, "spelling:amplitude:numpy.float32": 24,
+              "spelling:amplitude:numpy.float64": 24, "spelling:amplitude:numpy.int32": 24, "spelling:amplitude:numpy.int64": 48,
+              "spelling:degree:0-d int array": 24, "spelling:degree:int": 24, "spelling:degree:numpy.int32": 24, "spelling:degree:numpy.int64": 24,
+              "spelling:degree:numpy.intp": 24, "spelling:degree:numpy.uint8": 24, "spelling:given_by=keyword": 40,
+              "spelling:given_by=positional": 40, "spelling:given_by=set_params": 40, "spelling:mindist:float": 24, "spelling:mindist:int": 24,
+              "spelling:mindist:numpy.float32": 24, "spelling:mindist:numpy.float64": 24, "spelling:mindist:numpy.int32": 24,
+              "spelling:mindist:numpy.int64": 24, "spelling:poisson=-1:float": 7, "spelling:poisson=-1:int": 7,
+              "spelling:poisson=-1:numpy.float32": 7, "spelling:poisson=-1:numpy.float64": 7, "spelling:poisson=-1:numpy.int32": 7,
+              "spelling:poisson=-1:numpy.int64": 7, "spelling:poisson=0:float": 7, "spelling:poisson=0:int": 7,
+              "spelling:poisson=0:numpy.float32": 7, "spelling:poisson=0:numpy.float64": 7, "spelling:poisson=0:numpy.int32": 7,
+              "spelling:poisson=0:numpy.int64": 7, "spelling:poisson=1:float": 9, "spelling:poisson=1:int": 9, "spelling:poisson=1:numpy.float32": 9,
+              "spelling:poisson=1:numpy.float64": 9, "spelling:poisson=1:numpy.int32": 9, "spelling:poisson=1:numpy.int64": 9,
+              "spelling:region:float ndarray": 24, "spelling:region:int32 ndarray": 24, "spelling:region:int64 ndarray": 24,
+              "spelling:region:list of int": 24, "spelling:region:list of numpy.float64": 24, "spelling:region:tuple of int": 24,
+              "spelling:region:tuple of numpy.int64": 24, "spelling:rescale=False:0-d array": 12, "spelling:rescale=False:bool": 12,
+              "spelling:rescale=False:comparison": 12, "spelling:rescale=False:int": 12, "spelling:rescale=False:numpy.bool_": 12,
+              "spelling:rescale=False:numpy.int64": 12, "spelling:rescale=True:0-d array": 12, "spelling:rescale=True:bool": 12,
+              "spelling:rescale=True:comparison": 12, "spelling:rescale=True:int": 12, "spelling:rescale=True:numpy.bool_": 12,
+              "spelling:rescale=True:numpy.int64": 12},
     "thorough": {"eval:spline_jacobian": 15500, "eval:spline_predict": 38000, "eval:vector_jacobian": 11400, "eval:vector_predict": 36500,
                  "eval:trend_jacobian": 8600, "eval:trend_predict": 31000, "eval:checkerboard_predict": 17600, "eval:scipy_predict": 12300,
                  "eval:translation_invariance": 3800, "eval:reference_vs_mpmath": 380, "distinct_nontrivial": 119000,
@@ -59,7 +78,27 @@ FLOORS = {  # ~40 % of what the unchanged tree produces (quick seed 0: 1959/4732
                  "integer_coordinates:vector_predict:int32": 1600, "integer_coordinates:vector_predict:int64": 1600, "integer_coordinates:trend_predict:int32": 2500,
                  "integer_coordinates:trend_predict:int64": 2500, "integer_coordinates:spline_jacobian:int32": 800, "integer_coordinates:vector_jacobian:int64": 800,
                  "integer_coordinates:trend_jacobian:int32": 800, "integer:squares_overflow_the_dtype": 800, "integer:powers_overflow_the_dtype": 500,
-                 "history:checkerboard": 320, "history:spline": 320, "history:vector": 320, "history:trend": 320, "history:scipy_rescale_refit": 320, "history:scipy_class_state": 320, "checker:parameters_from_the_workload_record": 2240, "history:checker_change=region": 200, "history:checker_change=region+w_east+w_north": 160, "eval:checkerboard_wavelengths": 1280},
+                 "history:checkerboard": 320, "history:spline": 320, "history:vector": 320, "history:trend": 320, "history:scipy_rescale_refit": 320, "history:scipy_class_state": 320, "checker:parameters_from_the_workload_record": 2240, "history:checker_change=region": 200, "history:checker_change=region+w_east+w_north": 160, "eval:checkerboard_wavelengths": 1280,
+                 "spelling:amplitude:float": 480, "spelling:amplitude:int": 480, "spelling:amplitude:numpy.float32": 480,
+                 "spelling:amplitude:numpy.float64": 480, "spelling:amplitude:numpy.int32": 480, "spelling:amplitude:numpy.int64": 960,
+                 "spelling:degree:0-d int array": 480, "spelling:degree:int": 480, "spelling:degree:numpy.int32": 480,
+                 "spelling:degree:numpy.int64": 480, "spelling:degree:numpy.intp": 480, "spelling:degree:numpy.uint8": 480,
+                 "spelling:given_by=keyword": 800, "spelling:given_by=positional": 800, "spelling:given_by=set_params": 800,
+                 "spelling:mindist:float": 480, "spelling:mindist:int": 480, "spelling:mindist:numpy.float32": 480,
+                 "spelling:mindist:numpy.float64": 480, "spelling:mindist:numpy.int32": 480, "spelling:mindist:numpy.int64": 480,
+                 "spelling:poisson=-1:float": 140, "spelling:poisson=-1:int": 140, "spelling:poisson=-1:numpy.float32": 140,
+                 "spelling:poisson=-1:numpy.float64": 140, "spelling:poisson=-1:numpy.int32": 140, "spelling:poisson=-1:numpy.int64": 140,
+                 "spelling:poisson=0:float": 140, "spelling:poisson=0:int": 140, "spelling:poisson=0:numpy.float32": 140,
+                 "spelling:poisson=0:numpy.float64": 140, "spelling:poisson=0:numpy.int32": 140, "spelling:poisson=0:numpy.int64": 140,
+                 "spelling:poisson=1:float": 180, "spelling:poisson=1:int": 180, "spelling:poisson=1:numpy.float32": 180,
+                 "spelling:poisson=1:numpy.float64": 180, "spelling:poisson=1:numpy.int32": 180, "spelling:poisson=1:numpy.int64": 180,
+                 "spelling:region:float ndarray": 480, "spelling:region:int32 ndarray": 480, "spelling:region:int64 ndarray": 480,
+                 "spelling:region:list of int": 480, "spelling:region:list of numpy.float64": 480, "spelling:region:tuple of int": 480,
+                 "spelling:region:tuple of numpy.int64": 480, "spelling:rescale=False:0-d array": 240, "spelling:rescale=False:bool": 240,
+                 "spelling:rescale=False:comparison": 240, "spelling:rescale=False:int": 240, "spelling:rescale=False:numpy.bool_": 240,
+                 "spelling:rescale=False:numpy.int64": 240, "spelling:rescale=True:0-d array": 240, "spelling:rescale=True:bool": 240,
+                 "spelling:rescale=True:comparison": 240, "spelling:rescale=True:int": 240, "spelling:rescale=True:numpy.bool_": 240,
+                 "spelling:rescale=True:numpy.int64": 240},
 }
 JOBS = {"quick": 1, "thorough": 16}
 CASE_TIMEOUT_S = 180
